@@ -101,6 +101,15 @@ class PosClassifier:
                 and it.func.attr == 'positions' and src(it.func.value).endswith('.area') \
                 and is_grid_expr(it.func.value.value, self.grid_names):
             return True
+        if isinstance(it, ast.Call) and src(it.func) == 'get_manhattan_boundary' and \
+                getattr(self, 'index', None) is not None:
+            # the boundary clipped by the helper itself to the area of this grid
+            from .cellstream import StreamReader
+            clip = StreamReader(self.index, self.f.module, self.w)._boundary_clip_param()
+            kw = {k.arg: k.value for k in it.keywords}
+            if clip and clip in kw and src(kw[clip]).endswith('.area') and \
+                    is_grid_expr(kw[clip].value, self.grid_names):
+                return True
         if isinstance(it, ast.Name):
             ds = self.w.defs.get(it.id, [])
             vals = [d for d in ds if d[0] == 'value']
